@@ -53,7 +53,7 @@ func (w *world) exhaust(d *doc, set settings, coqSamples int) {
 	r := w.rnd
 	L := len(d.Body)
 	var offs []int
-	maxAll := w.r.Scale(700, 5000)
+	maxAll := w.r.Scale(700, 3000)
 	if L <= maxAll {
 		for i := 0; i <= L; i++ {
 			offs = append(offs, i)
@@ -121,7 +121,7 @@ func runC15(r *hk.Run) {
 	r.CheckFn = "c15_check"
 	r.ShardSize = 60
 	r.Rule = "non-trivial = the body contains a non-ASCII byte AND (a charset other than 'nothing' is in play: declared in Content-Type, by BOM or by meta, or the response is not selected for decoding although it declares one)"
-	w := &world{r: r, rnd: hk.NewRand(r.Seed), coqCap: r.Scale(6<<20, 60<<20), bigLeft: r.Scale(24, 500)}
+	w := &world{r: r, rnd: hk.NewRand(r.Seed), coqCap: r.Scale(6<<20, 24<<20), bigLeft: r.Scale(24, 200)}
 	rnd := w.rnd
 
 	// A. the three shapes found at design time, always present
@@ -174,7 +174,7 @@ func runC15(r *hk.Run) {
 	}
 
 	// B. charsets x sites x lengths, every 2-split x caller buffers (oracle) + sampled Coq cases
-	nDocs := r.Scale(150, 1500)
+	nDocs := r.Scale(150, 900)
 	for i := 0; i < nDocs; i++ {
 		cs := &charsetTable[i%len(charsetTable)]
 		s := sitesFor[(i/len(charsetTable)+i)%len(sitesFor)]
@@ -204,6 +204,13 @@ func runC15(r *hk.Run) {
 	// E. end to end over TCP
 	if os.Getenv("VERIF_C15_NO_E2E") == "" {
 		w.endToEnd()
+	}
+	// one round of 16 parallel coqc processes in the quick tier
+	if n := w.r.Dist["coq:emitted"]; r.Quick() && n > 0 {
+		r.ShardSize = (n + 15) / 16
+		if r.ShardSize < 40 {
+			r.ShardSize = 40
+		}
 	}
 }
 
